@@ -314,7 +314,10 @@ func allTypes() []*typeDef {
 				return out
 			}, Must: constH(pgpDigests), Refuse: constH(nil)},
 		{Name: "pgp", SigType: "pgp", Mod: "pgp", PGP: true, Cheap: true, Separate: true, NoPresign: true,
-			Shapes: plus(datagen.Shapes, fixture("Release", "Release", "fixture-apt-release", true)),
+			// + documents sized so that the literal data packet of the inline message (6 + file name +
+			// document octets) lies on either side of every place where RFC 4880 4.2 changes the form
+			// of a packet length (gen/datagen LengthBoundaries)
+			Shapes: plus(datagen.Shapes, append([]shape.Shape{fixture("Release", "Release", "fixture-apt-release", true)}, datagen.LengthBoundaryShapes("data.bin")...)...),
 			Must:   constH(pgpDigests), Refuse: constH(nil),
 			FlagsSupported: func(fl url.Values) bool {
 				clear := fl.Get("clearsign") == "true" || fl.Get("pgp") == "mini-clear"
